@@ -37,7 +37,7 @@ def _expand(item):
 
 
 def bfs(factory, ops, depth, run, label="", budget_s=None, seen=None,
-        op_filter=None, group=8):
+        op_filter=None, group=8, keep_outcome_hist=False):
     """Explore all histories over `ops` up to `depth`.  Returns stats."""
     global _FACTORY, _OPS
     _FACTORY, _OPS = factory, list(ops)
@@ -50,7 +50,8 @@ def bfs(factory, ops, depth, run, label="", budget_s=None, seen=None,
     seen.setdefault(c0, ())
     frontier = [()]
     stats = {'states': len(seen), 'transitions': 0, 'pruned': 0,
-             'depth_completed': 0, 'outcomes': set(), 'capped': False}
+             'depth_completed': 0, 'outcomes': set(), 'capped': False,
+             'outcome_hist': {}}
     nops = len(_OPS)
     for d in range(1, depth + 1):
         items = []
@@ -69,8 +70,10 @@ def bfs(factory, ops, depth, run, label="", budget_s=None, seen=None,
         for (hist, _), res in zip(items, results):
             for oi, canon, viol, outcome in res:
                 stats['transitions'] += 1
-                stats['outcomes'].add(outcome)
                 h2 = hist + (oi,)
+                if outcome not in stats['outcomes']:
+                    stats['outcomes'].add(outcome)
+                    stats['outcome_hist'][outcome] = h2
                 for sig, what in viol:
                     run.violation(sig, what,
                                   {'label': label,
@@ -87,6 +90,8 @@ def bfs(factory, ops, depth, run, label="", budget_s=None, seen=None,
         if not frontier:
             break
     stats['distinct_outcomes'] = len(stats.pop('outcomes'))
+    if not keep_outcome_hist:
+        stats.pop('outcome_hist')
     stats['wall_s'] = round(time.time() - t0, 2)
     return stats
 
